@@ -19,7 +19,8 @@ SETTINGS = [  # (OMP_NUM_THREADS, OMP_SCHEDULE, OMP_DYNAMIC)
     ("16", "static", "false"), ("16", "static", "false"), ("64", "static", "false"), ("8", "dynamic,1", "true"),
 ]
 RULE = ("case = (protein fragment of 12 residues with hydrogens or a water box fragment, 12-40 frames built from 8 conformations + noise "
-        "(one case in four: 300 / 520 / 700 frames, every atom wrapped into its frame's cell, single frames taken around multiples of 128 / "
+        "(one case in three of the short ones: one conformation whose second part approaches / leaves the first rigidly by 0.1 nm per frame; "
+        "one case in four: 300 / 520 / 700 frames, every atom wrapped into its frame's cell, single frames taken around multiples of 128 / "
         "256 / 512, four OpenMP settings), "
         "triclinic per-frame varying cell, a frame permutation, index lists); each of 8 OpenMP settings (threads 1,2,3,5,16,16 again,64, "
         "8 with dynamic scheduling / dynamic adjustment) runs in its own process and evaluates ~25 per-frame functions on the whole "
@@ -46,6 +47,12 @@ def strategy(draw, tier="quick"):
         case.update(long=True, nf=draw(st.sampled_from([300, 520, 700])), cell=draw(st.sampled_from(["tric-vary", "ortho", "ortho-then-tric", "tric-c-only"])))
     elif case["cell"] != "none":
         case["wrap"] = draw(st.booleans())     # every atom wrapped into the cell on its own (bonds cross the faces)
+    if not case.get("long") and draw(st.integers(0, 2)) == 0:
+        # successive frames that differ only slightly, as in a real simulation: one conformation, the part of the system after
+        # residue `split` approaches the rest rigidly (or moves away) by 0.1 nm per frame, starting (ending) 2.4-3.4 nm apart
+        case.update(drift={"dir": draw(st.sampled_from(["closing", "opening"])), "split": draw(st.integers(4, 7)),
+                           "conf": draw(st.sampled_from([1, 2, 4, 6, 7])), "axis": draw(st.integers(0, 2))},
+                    nf=draw(st.integers(25, 35)), noise=0.0)
     return case
 
 
@@ -64,9 +71,17 @@ def build(case):
             base = base.atom_slice(keep)
     nf = case["nf"]
     frames = []
+    dr = case.get("drift")
+    if dr:
+        res_of = np.array([a.residue.index for a in base.topology.atoms])
+        moving = res_of >= (dr["split"] if case["system"] == "protein" else base.n_residues // 2)
+        axis = np.eye(3)[dr["axis"]]
     for f in range(nf):
-        x = base.xyz[f % base.n_frames].astype(np.float64)
+        x = base.xyz[(dr["conf"] if dr else f) % base.n_frames].astype(np.float64)
         x = x + rng.normal(0, case["noise"] + 1e-4 * (f % 97 if case.get("long") else f), x.shape)
+        if dr:
+            k = (nf - 1 - f) if dr["dir"] == "closing" else f
+            x[moving] += 0.1 * k * axis
         frames.append(x)
     xyz = np.array(frames).astype(np.float32)
     xyz = xyz - xyz.mean(axis=(0, 1)) + 2.5
